@@ -1,0 +1,798 @@
+//! Verification-only instrumentation (`--cfg cormacrelf_incremental_rs_verif`).
+//!
+//! Read-only views of engine state for an external model checker:
+//!
+//! - a registry of weak references to every node created on a [State],
+//! - [State::verif_dump]: a textual dump of every live node plus the state's queues,
+//! - [State::verif_audit]: a port of the upstream `Node.invariant` / `State.invariant` walkers.
+//!
+//! Nothing in here mutates engine state (other than pruning dead weak refs from the registry).
+//!
+//! Dump conventions (parsed by the harness): node ids are printed `#<n>`, observer ids `o<n>`,
+//! logical timestamps `@<n>` (`@-1` = never).
+
+use std::fmt::Write as _;
+use std::rc::Rc;
+
+use super::{ErasedNode, Node};
+use crate::kind::Kind;
+use crate::state::{IncrStatus, State};
+use crate::{NodeRef, WeakNode};
+
+fn ts(t: crate::stabilisation_num::StabilisationNum) -> String {
+    format!("@{}", t.0)
+}
+
+fn nid(n: &Node) -> String {
+    format!("#{}", n.id.0)
+}
+
+fn weak_id(w: &WeakNode) -> String {
+    match w.upgrade() {
+        Some(n) => nid(&n),
+        None => "#dead".to_string(),
+    }
+}
+
+fn kind_tag(kind: &Kind) -> &'static str {
+    match kind {
+        Kind::Constant(_) => "Const",
+        Kind::ArrayFold(_) => "Fold",
+        Kind::Var(_) => "Var",
+        Kind::Map(_) => "Map",
+        Kind::MapWithOld(_) => "MapWithOld",
+        Kind::MapRef(_) => "MapRef",
+        Kind::Map2(_) => "Map2",
+        Kind::Map3(_) => "Map3",
+        Kind::Map4(_) => "Map4",
+        Kind::Map5(_) => "Map5",
+        Kind::Map6(_) => "Map6",
+        Kind::BindLhsChange { .. } => "BindLhsChange",
+        Kind::BindMain { .. } => "BindMain",
+        Kind::Expert(_) => "Expert",
+    }
+}
+
+impl Node {
+    /// Children as enumerated by the kind, valid or not (kind-level view).
+    fn verif_children(&self) -> Vec<(i32, NodeRef)> {
+        let mut out = vec![];
+        self.foreach_child(&mut |ix, c| out.push((ix, c)));
+        out
+    }
+
+    pub(crate) fn verif_dump_line(&self, out: &mut String) {
+        let _ = write!(
+            out,
+            "{} kind={} valid={} h={} hrch={} hahh={} rec={} chg={} nouh={} inhas={} fnec={}",
+            nid(self),
+            kind_tag(&self._kind),
+            self.is_valid.get() as u8,
+            self.height.get(),
+            self.height_in_recompute_heap.get(),
+            self.height_in_adjust_heights_heap.get(),
+            ts(self.recomputed_at.get()),
+            ts(self.changed_at.get()),
+            self.num_on_update_handlers.get(),
+            self.is_in_handle_after_stabilisation.get() as u8,
+            self.force_necessary.get() as u8,
+        );
+        match self.value_opt.try_borrow() {
+            Ok(v) => match &*v {
+                Some(v) => {
+                    let _ = write!(out, " val={:?}", v);
+                }
+                None => out.push_str(" val=-"),
+            },
+            Err(_) => out.push_str(" val=?borrowed"),
+        }
+        match &self.created_in {
+            crate::scope::Scope::Top => out.push_str(" scope=Top"),
+            crate::scope::Scope::Bind(w) => match w.upgrade() {
+                Some(b) => {
+                    let _ = write!(out, " scope=#{}", b.id().0);
+                }
+                None => out.push_str(" scope=#dead"),
+            },
+        }
+        out.push_str(" parents=[");
+        if let Ok(ps) = self.parents.try_borrow() {
+            for p in ps.iter() {
+                out.push_str(&weak_id(p));
+                out.push(',');
+            }
+        } else {
+            out.push_str("?borrowed");
+        }
+        out.push(']');
+        if let Ok(pci) = self.parent_child_indices.try_borrow() {
+            let _ = write!(
+                out,
+                " pic={:?} cip={:?}",
+                pci.my_parent_index_in_child_at_index.as_slice(),
+                pci.my_child_index_in_parent_at_index.as_slice()
+            );
+        } else {
+            out.push_str(" pic=?borrowed");
+        }
+        out.push_str(" children=[");
+        if self.is_valid.get() {
+            for (_ix, c) in self.verif_children() {
+                out.push_str(&nid(&c));
+                out.push(',');
+            }
+        }
+        out.push(']');
+        out.push_str(" obs=[");
+        if let Ok(obs) = self.observers.try_borrow() {
+            let mut v: Vec<_> = obs.iter().collect();
+            v.sort_by_key(|(id, _)| id.verif_usize());
+            for (_id, o) in v {
+                match o.upgrade() {
+                    Some(o) => out.push_str(&o.verif_dump()),
+                    None => out.push_str("o-dead"),
+                }
+                out.push(';');
+            }
+        }
+        out.push(']');
+        out.push_str(" ouh=[");
+        if let Ok(ouh) = self.on_update_handlers.try_borrow() {
+            for h in ouh.iter() {
+                out.push_str(&h.verif_dump());
+                out.push(';');
+            }
+        }
+        out.push(']');
+        match &self._kind {
+            Kind::Var(var) => {
+                let _ = write!(out, " var{{{}}}", var.verif_dump());
+            }
+            Kind::MapRef(m) => {
+                let _ = write!(out, " did_change={}", m.did_change.get() as u8);
+            }
+            Kind::BindLhsChange { bind } | Kind::BindMain { bind, .. } => {
+                out.push_str(" bind{lhs=");
+                out.push_str(&nid(&bind.lhs));
+                out.push_str(" rhs=");
+                match bind.rhs.try_borrow() {
+                    Ok(r) => match &*r {
+                        Some(r) => out.push_str(&nid(r)),
+                        None => out.push('-'),
+                    },
+                    Err(_) => out.push('?'),
+                }
+                out.push_str(" main=");
+                if let Ok(m) = bind.main.try_borrow() {
+                    out.push_str(&weak_id(&m));
+                }
+                out.push_str(" lhs_change=");
+                if let Ok(m) = bind.lhs_change.try_borrow() {
+                    out.push_str(&weak_id(&m));
+                }
+                out.push_str(" made=[");
+                if let Ok(all) = bind.all_nodes_created_on_rhs.try_borrow() {
+                    for w in all.iter() {
+                        out.push_str(&weak_id(w));
+                        out.push(',');
+                    }
+                }
+                out.push_str("]}");
+            }
+            Kind::Expert(e) => {
+                let _ = write!(
+                    out,
+                    " expert{{force_stale={} ninv={} fireall={} edges=[",
+                    e.force_stale.get() as u8,
+                    e.num_invalid_children.get(),
+                    e.will_fire_all_callbacks.get() as u8
+                );
+                if let Ok(ch) = e.children.try_borrow() {
+                    for edge in ch.iter() {
+                        let _ = write!(
+                            out,
+                            "{}:{:?},",
+                            nid(&edge.packed()),
+                            edge.index_cell().get()
+                        );
+                    }
+                }
+                out.push_str("]}");
+            }
+            _ => {}
+        }
+        out.push('\n');
+    }
+}
+
+impl State {
+    pub(crate) fn verif_register(&self, node: &NodeRef) {
+        if let Ok(mut v) = self.verif_nodes.try_borrow_mut() {
+            v.push(Rc::downgrade(node));
+        }
+    }
+
+    /// All registered nodes that are still alive, in creation order.
+    pub(crate) fn verif_live_nodes(&self) -> Vec<NodeRef> {
+        let mut reg = self.verif_nodes.borrow_mut();
+        reg.retain(|w| w.strong_count() > 0);
+        reg.iter().filter_map(|w| w.upgrade()).collect()
+    }
+
+    pub(crate) fn verif_max_height_in_use(&self) -> i32 {
+        self.verif_live_nodes()
+            .iter()
+            .filter(|n| n.is_necessary())
+            .map(|n| n.height.get())
+            .max()
+            .unwrap_or(-1)
+    }
+
+    pub(crate) fn verif_dump(&self) -> String {
+        let mut out = String::new();
+        let status = match self.status.get() {
+            IncrStatus::NotStabilising => "NotStabilising",
+            IncrStatus::Stabilising => "Stabilising",
+            IncrStatus::RunningOnUpdateHandlers => "RunningOnUpdateHandlers",
+        };
+        let _ = write!(
+            out,
+            "STATE now={} status={} nactive={} necessary={}",
+            ts(self.stabilisation_num.get()),
+            status,
+            self.num_active_observers.get(),
+            self.num_nodes_became_necessary.get() as i64
+                - self.num_nodes_became_unnecessary.get() as i64,
+        );
+        let _ = write!(
+            out,
+            " rch{{len={} lb={} max={} q=[",
+            self.recompute_heap.len(),
+            self.recompute_heap.verif_lower_bound(),
+            self.recompute_heap.max_height_allowed(),
+        );
+        for (h, q) in self.recompute_heap.verif_queues().iter().enumerate() {
+            if q.is_empty() {
+                continue;
+            }
+            let _ = write!(out, "{}:(", h);
+            for n in q {
+                out.push_str(&nid(n));
+                out.push(',');
+            }
+            out.push_str(")");
+        }
+        out.push_str("]}");
+        match self.adjust_heights_heap.try_borrow() {
+            Ok(ahh) => {
+                let (len, lb, seen, queued) = ahh.verif_state();
+                let _ = write!(
+                    out,
+                    " ahh{{len={} lb={} seen={} max={} queued={}}}",
+                    len,
+                    lb,
+                    seen,
+                    ahh.max_height_allowed(),
+                    queued
+                );
+            }
+            Err(_) => out.push_str(" ahh{?borrowed}"),
+        }
+        let weak_list = |name: &str, v: Vec<String>, out: &mut String| {
+            let _ = write!(out, " {}=[{}]", name, v.join(","));
+        };
+        weak_list(
+            "new_obs",
+            self.new_observers
+                .borrow()
+                .iter()
+                .map(|w| match w.upgrade() {
+                    Some(o) => format!("o{}", o.id().verif_usize()),
+                    None => "o-dead".into(),
+                })
+                .collect(),
+            &mut out,
+        );
+        weak_list(
+            "disallowed",
+            self.disallowed_observers
+                .borrow()
+                .iter()
+                .map(|w| match w.upgrade() {
+                    Some(o) => format!("o{}", o.id().verif_usize()),
+                    None => "o-dead".into(),
+                })
+                .collect(),
+            &mut out,
+        );
+        {
+            let ao = self.all_observers.borrow();
+            let mut v: Vec<_> = ao
+                .iter()
+                .map(|(id, o)| (id.verif_usize(), o.verif_dump()))
+                .collect();
+            v.sort();
+            weak_list(
+                "all_obs",
+                v.into_iter().map(|(_, s)| s).collect(),
+                &mut out,
+            );
+        }
+        weak_list(
+            "dead_vars",
+            self.dead_vars
+                .borrow()
+                .iter()
+                .map(|w| match w.upgrade() {
+                    Some(v) => format!("#{}", v.id().0),
+                    None => "#dead".into(),
+                })
+                .collect(),
+            &mut out,
+        );
+        weak_list(
+            "set_during",
+            self.set_during_stabilisation
+                .borrow()
+                .iter()
+                .map(|w| match w.upgrade() {
+                    Some(v) => format!("#{}", v.id().0),
+                    None => "#dead".into(),
+                })
+                .collect(),
+            &mut out,
+        );
+        weak_list(
+            "has",
+            self.handle_after_stabilisation
+                .borrow()
+                .iter()
+                .map(weak_id)
+                .collect(),
+            &mut out,
+        );
+        weak_list(
+            "prop_inv",
+            self.propagate_invalidity
+                .borrow()
+                .iter()
+                .map(weak_id)
+                .collect(),
+            &mut out,
+        );
+        weak_list(
+            "run_ouh",
+            self.run_on_update_handlers
+                .borrow()
+                .iter()
+                .map(|(w, u)| format!("{}:{:?}", weak_id(w), u))
+                .collect(),
+            &mut out,
+        );
+        {
+            let wm = self.weak_maps.borrow();
+            let lens: Vec<String> = wm
+                .iter()
+                .map(|m| match m.try_borrow() {
+                    Ok(m) => m.len().to_string(),
+                    Err(_) => "?".into(),
+                })
+                .collect();
+            weak_list("weak_maps", lens, &mut out);
+        }
+        out.push('\n');
+        for n in self.verif_live_nodes() {
+            n.verif_dump_line(&mut out);
+        }
+        out
+    }
+
+    /// Port of the upstream invariant walkers. Each finding starts with its rule number
+    /// (`R2:` ...), see /verif/DESIGN.md Appendix B. Only meaningful outside `stabilise`.
+    pub(crate) fn verif_audit(&self) -> Vec<String> {
+        let mut f: Vec<String> = vec![];
+        let nodes = self.verif_live_nodes();
+        let max_allowed = self.recompute_heap.max_height_allowed();
+        let queues = self.recompute_heap.verif_queues();
+        let (ahh_len, _ahh_lb, max_seen, ahh_queued) = self.adjust_heights_heap.borrow().verif_state();
+        let mut n_necessary: i64 = 0;
+
+        // R6: heap structure
+        let mut total = 0usize;
+        let mut lowest: Option<usize> = None;
+        for (h, q) in queues.iter().enumerate() {
+            total += q.len();
+            if !q.is_empty() && lowest.is_none() {
+                lowest = Some(h);
+            }
+            for (i, n) in q.iter().enumerate() {
+                if n.height_in_recompute_heap.get() != h as i32 {
+                    f.push(format!(
+                        "R6: node {} sits in recompute-heap queue {} but its marker says {}",
+                        nid(n),
+                        h,
+                        n.height_in_recompute_heap.get()
+                    ));
+                }
+                if n.height.get() != h as i32 {
+                    f.push(format!(
+                        "R6: node {} of height {} sits in recompute-heap queue {}",
+                        nid(n),
+                        n.height.get(),
+                        h
+                    ));
+                }
+                if q.iter().skip(i + 1).any(|m| Rc::ptr_eq(m, n)) {
+                    f.push(format!("R6: node {} is in the recompute heap twice", nid(n)));
+                }
+            }
+        }
+        if total != self.recompute_heap.len() {
+            f.push(format!(
+                "R6: recompute heap length {} but queues hold {}",
+                self.recompute_heap.len(),
+                total
+            ));
+        }
+        if let Some(lowest) = lowest {
+            if self.recompute_heap.verif_lower_bound() > lowest as i32 {
+                f.push(format!(
+                    "R6: recompute heap lower bound {} above lowest non-empty queue {}",
+                    self.recompute_heap.verif_lower_bound(),
+                    lowest
+                ));
+            }
+        }
+        if ahh_len != 0 || ahh_queued != 0 {
+            f.push(format!(
+                "D6: adjust-heights heap not empty at rest (len {ahh_len}, queued {ahh_queued})"
+            ));
+        }
+        if !self.propagate_invalidity.borrow().is_empty() {
+            f.push("D6: propagate_invalidity stack not empty at rest".into());
+        }
+        if !self.set_during_stabilisation.borrow().is_empty() {
+            f.push("D6: set_during_stabilisation not empty at rest".into());
+        }
+        if !self.run_on_update_handlers.borrow().is_empty() {
+            f.push("D6: run_on_update_handlers not empty at rest".into());
+        }
+
+        let in_has: Vec<NodeRef> = self
+            .handle_after_stabilisation
+            .borrow()
+            .iter()
+            .filter_map(|w| w.upgrade())
+            .collect();
+
+        for n in nodes.iter() {
+            let id = nid(n);
+            let necessary = n.is_necessary();
+            let valid = n.is_valid.get();
+            if necessary {
+                n_necessary += 1;
+            }
+            // D1
+            let has_reason = !n.parents.borrow().is_empty() || !n.observers.borrow().is_empty();
+            if n.force_necessary.get() {
+                f.push(format!("D1: {id} has force_necessary set at rest"));
+            }
+            let _ = has_reason;
+
+            // R2: edges towards children
+            let pci = n.parent_child_indices.borrow();
+            if valid {
+                for (ix, c) in n.verif_children() {
+                    let j = pci
+                        .my_parent_index_in_child_at_index
+                        .get(ix as usize)
+                        .copied()
+                        .unwrap_or(-1);
+                    if necessary {
+                        if j < 0 {
+                            f.push(format!(
+                                "R2: needed node {id} has no parent index for its input {} (child index {ix})",
+                                nid(&c)
+                            ));
+                            continue;
+                        }
+                        let cps = c.parents.borrow();
+                        match cps.get(j as usize) {
+                            Some(w) if crate::weak_thin_ptr_eq(w, &n.weak_self) => {}
+                            _ => f.push(format!(
+                                "R2: input {} of needed node {id} does not list it as parent at index {j}",
+                                nid(&c)
+                            )),
+                        }
+                        let cpci = c.parent_child_indices.borrow();
+                        let back = cpci
+                            .my_child_index_in_parent_at_index
+                            .get(j as usize)
+                            .copied()
+                            .unwrap_or(-1);
+                        if back != ix {
+                            f.push(format!(
+                                "R2: edge {id} -> input {}: child index {ix} but the input records {back}",
+                                nid(&c)
+                            ));
+                        }
+                        if c.height.get() >= n.height.get() {
+                            f.push(format!(
+                                "R4: needed node {id} (height {}) is not higher than its input {} (height {})",
+                                n.height.get(),
+                                nid(&c),
+                                c.height.get()
+                            ));
+                        }
+                    } else if j >= 0 {
+                        f.push(format!(
+                            "R2: unneeded node {id} still records parent index {j} in its input {}",
+                            nid(&c)
+                        ));
+                    }
+                }
+            } else {
+                for (ix, j) in pci.my_parent_index_in_child_at_index.iter().enumerate() {
+                    if *j >= 0 {
+                        f.push(format!(
+                            "R2: invalid node {id} still records parent index {j} for child index {ix}"
+                        ));
+                    }
+                }
+            }
+
+            // R3: edges towards parents
+            {
+                let ps = n.parents.borrow();
+                for (j, pw) in ps.iter().enumerate() {
+                    let Some(p) = pw.upgrade() else {
+                        f.push(format!("R3: {id} has a dangling parent pointer at index {j}"));
+                        continue;
+                    };
+                    if !p.is_necessary() {
+                        f.push(format!("R3: parent {} of {id} is not needed", nid(&p)));
+                    }
+                    if !p.is_valid.get() {
+                        f.push(format!("R3: parent {} of {id} is invalid", nid(&p)));
+                        continue;
+                    }
+                    let ix = pci
+                        .my_child_index_in_parent_at_index
+                        .get(j)
+                        .copied()
+                        .unwrap_or(-1);
+                    let found = p
+                        .verif_children()
+                        .into_iter()
+                        .find(|(cix, _)| *cix == ix)
+                        .map(|(_, c)| c);
+                    match found {
+                        Some(c) if Rc::ptr_eq(&c, n) => {}
+                        _ => f.push(format!(
+                            "R3: {id} lists parent {} at index {j} with child index {ix}, but that input of the parent is not {id}",
+                            nid(&p)
+                        )),
+                    }
+                }
+                for (j, ix) in pci.my_child_index_in_parent_at_index.iter().enumerate() {
+                    if j >= ps.len() && *ix != -1 {
+                        f.push(format!(
+                            "R3: {id} has a stale child-index entry {ix} at slot {j} beyond its {} parents",
+                            ps.len()
+                        ));
+                    }
+                }
+                if !necessary && !ps.is_empty() {
+                    f.push(format!("R5: unneeded node {id} has dependants"));
+                }
+            }
+            drop(pci);
+
+            // R4: heights
+            let h = n.height.get();
+            if necessary {
+                if h < 0 || h > max_allowed {
+                    f.push(format!(
+                        "R4: needed node {id} has height {h} outside 0..={max_allowed}"
+                    ));
+                }
+                if let crate::scope::Scope::Bind(w) = &n.created_in {
+                    if let Some(b) = w.upgrade() {
+                        // only meaningful while the creating bind is itself in the graph
+                        if valid && b.is_necessary() && h <= b.height() {
+                            f.push(format!(
+                                "R4: needed node {id} (height {h}) is not higher than the bind that created it (#{} at {})",
+                                b.id().0,
+                                b.height()
+                            ));
+                        }
+                    }
+                }
+            } else if h != -1 {
+                f.push(format!("R4: unneeded node {id} has height {h}, expected -1"));
+            }
+            if h > max_seen {
+                f.push(format!("D4: {id} height {h} above max_height_seen {max_seen}"));
+            }
+
+            // R5: scheduling
+            let hr = n.height_in_recompute_heap.get();
+            let in_heap = hr >= 0;
+            if in_heap && hr != h {
+                f.push(format!(
+                    "R5: {id} is marked in the recompute heap at {hr} but has height {h}"
+                ));
+            }
+            let really_in_heap = queues
+                .iter()
+                .any(|q| q.iter().any(|m| Rc::ptr_eq(m, n)));
+            if in_heap != really_in_heap {
+                f.push(format!(
+                    "R5: {id} recompute-heap marker says {in_heap} but membership is {really_in_heap}"
+                ));
+            }
+            let should = necessary && n.is_stale();
+            if really_in_heap && !should {
+                f.push(format!(
+                    "R5: {id} is scheduled but is not needed-and-stale (needed={necessary}, stale={})",
+                    n.is_stale()
+                ));
+            }
+            if !really_in_heap && should {
+                f.push(format!("R5: {id} is needed and stale but not scheduled"));
+            }
+            if n.height_in_adjust_heights_heap.get() != -1 {
+                f.push(format!("D5: {id} is marked as in the adjust-heights heap at rest"));
+            }
+
+            // R7: values
+            if valid && necessary && !n.is_stale() && n.value_as_any().is_none() {
+                f.push(format!("R7: needed, valid, up-to-date node {id} has no value"));
+            }
+            if !valid && n.value_opt.borrow().is_some() {
+                f.push(format!("D7: invalid node {id} still caches a value"));
+            }
+
+            // R8: handler counts
+            let mut registered = n.on_update_handlers.borrow().len() as i32;
+            for (_oid, o) in n.observers.borrow().iter() {
+                match o.upgrade() {
+                    Some(o) => {
+                        registered += o.num_handlers();
+                        // D9
+                        use crate::internal_observer::ObserverState as OS;
+                        match o.state().get() {
+                            OS::InUse | OS::Disallowed => {}
+                            other => f.push(format!(
+                                "D9: {id} lists observer o{} in state {:?}",
+                                o.id().verif_usize(),
+                                other
+                            )),
+                        }
+                        if !Rc::ptr_eq(&o.observing_packed(), n) {
+                            f.push(format!(
+                                "D9: {id} lists observer o{} which observes another node",
+                                o.id().verif_usize()
+                            ));
+                        }
+                        if !self.all_observers.borrow().contains_key(&o.id()) {
+                            f.push(format!(
+                                "D9: {id} lists observer o{} missing from all_observers",
+                                o.id().verif_usize()
+                            ));
+                        }
+                    }
+                    None => f.push(format!("D9: {id} lists a dead observer")),
+                }
+            }
+            if registered != n.num_on_update_handlers.get() {
+                f.push(format!(
+                    "R8: {id} handler count is {} but {} handlers are registered",
+                    n.num_on_update_handlers.get(),
+                    registered
+                ));
+            }
+            let listed = in_has.iter().any(|m| Rc::ptr_eq(m, n));
+            if listed != n.is_in_handle_after_stabilisation.get() {
+                f.push(format!(
+                    "D8: {id} handle-after-stabilisation flag {} but queue membership {}",
+                    n.is_in_handle_after_stabilisation.get(),
+                    listed
+                ));
+            }
+
+            // D10 / R11
+            if valid {
+                match &n._kind {
+                    Kind::BindMain { bind, lhs_change } => {
+                        if let Some(lc) = bind.lhs_change.borrow().upgrade() {
+                            if !Rc::ptr_eq(&lc, lhs_change) {
+                                f.push(format!("D10: bind main {id} disagrees with its bind about lhs_change"));
+                            }
+                        }
+                    }
+                    Kind::BindLhsChange { bind } => {
+                        for w in bind.all_nodes_created_on_rhs.borrow().iter() {
+                            if let Some(m) = w.upgrade() {
+                                let ok = match &m.created_in {
+                                    crate::scope::Scope::Bind(bw) => bw
+                                        .upgrade()
+                                        .map_or(false, |b| b.id() == bind.id_lhs_change.get()),
+                                    _ => false,
+                                };
+                                if !ok {
+                                    f.push(format!(
+                                        "D10: bind {id} lists {} which was not created in its scope",
+                                        nid(&m)
+                                    ));
+                                }
+                            }
+                        }
+                    }
+                    Kind::Expert(e) => {
+                        let ch = e.children.borrow();
+                        let mut ninv = 0;
+                        for (pos, edge) in ch.iter().enumerate() {
+                            if edge.index_cell().get() != Some(pos as i32) {
+                                f.push(format!(
+                                    "R11: expert node {id} edge at position {pos} records index {:?}",
+                                    edge.index_cell().get()
+                                ));
+                            }
+                            if !edge.packed().is_valid.get() {
+                                ninv += 1;
+                            }
+                        }
+                        if necessary && ninv != e.num_invalid_children.get() {
+                            f.push(format!(
+                                "D11: expert node {id} counts {} invalid children but has {}",
+                                e.num_invalid_children.get(),
+                                ninv
+                            ));
+                        }
+                    }
+                    _ => {}
+                }
+            }
+        }
+
+        let counted = self.num_nodes_became_necessary.get() as i64
+            - self.num_nodes_became_unnecessary.get() as i64;
+        if counted != n_necessary {
+            f.push(format!(
+                "R8: stats().necessary is {counted} but {n_necessary} live nodes are needed"
+            ));
+        }
+        {
+            use crate::internal_observer::ObserverState as OS;
+            let ao = self.all_observers.borrow();
+            let mut active = 0usize;
+            for (_id, o) in ao.iter() {
+                match o.state().get() {
+                    OS::InUse => active += 1,
+                    OS::Disallowed => {}
+                    other => f.push(format!(
+                        "D9: all_observers holds o{} in state {:?}",
+                        o.id().verif_usize(),
+                        other
+                    )),
+                }
+            }
+            for w in self.new_observers.borrow().iter() {
+                if let Some(o) = w.upgrade() {
+                    if o.state().get() == OS::Created {
+                        active += 1;
+                    }
+                }
+            }
+            if active != self.num_active_observers.get() {
+                f.push(format!(
+                    "D9: num_active_observers is {} but {} observers are created or in use",
+                    self.num_active_observers.get(),
+                    active
+                ));
+            }
+        }
+        f
+    }
+}
